@@ -116,10 +116,17 @@
           (cons (car mod-name+imports)
                 (case (car x)
                   ((only)
+                   ;; the imported ids may be (new . old) pairs after a
+                   ;; rename or prefix: match on the new name, keep the pair
                    (map (lambda (imp)
-                          (if (or (boolean? imp-ids) (memq imp imp-ids))
+                          (if (boolean? imp-ids)
                               imp
-                              (error "importing unknown binding" imp imp-ids)))
+                              (let lp ((ls imp-ids))
+                                (cond
+                                 ((null? ls)
+                                  (error "importing unknown binding" imp imp-ids))
+                                 ((eq? imp (to-id (car ls))) (car ls))
+                                 (else (lp (cdr ls)))))))
                         (cddr x)))
                   ((except)
                    (id-filter (lambda (i) (not (memq i (cddr x)))) imp-ids))
